@@ -14,7 +14,7 @@ _NOTE = ('Trusted base: minimysql semantics (serial transactions, DESIGN.md 4), 
          '<= 2 batches each, <= 3 updates, <= 7 jobs per update, job groups nested <= 2, <= 8 instances.')
 
 
-def _entry(pid, text, oracle, n_quick=600, n_thorough=20000, offset=0, expected=(), extra_scenarios=()):
+def _entry(pid, text, oracle, n_quick=600, n_thorough=4800, offset=0, expected=(), extra_scenarios=()):
     return {
         'level': 'exploration',
         'engine': 'batchsim',
@@ -32,14 +32,14 @@ def _entry(pid, text, oracle, n_quick=600, n_thorough=20000, offset=0, expected=
 
 def _procs(pid, offset, n_quick=4000):
     """protocol-level fuzz of the stored procedures (worlds/batch/procs.py) as an extra scenario of `pid`."""
-    return {'module': 'worlds.batch.procs', 'quick': n_quick, 'thorough': 25 * n_quick, 'seed_offset': offset,
+    return {'module': 'worlds.batch.procs', 'quick': n_quick, 'thorough': 8 * n_quick, 'seed_offset': offset,
             'params': {'props': [pid]}, 'wall_cap': {'quick': 400.0, 'thorough': 3000.0}}
 
 
 def _cs(pid, offset, n_quick=1500):
     """raw REST multi-update histories (worlds/batch/cancelscope.py: several updates open at once, bunch-wise
     submission, out-of-order commits, abandoned updates, parents in earlier updates, cancellations in between)."""
-    return {'module': 'worlds.batch.cancelscope', 'quick': n_quick, 'thorough': 25 * n_quick, 'seed_offset': offset,
+    return {'module': 'worlds.batch.cancelscope', 'quick': n_quick, 'thorough': 8 * n_quick, 'seed_offset': offset,
             'params': {'props': [pid]}, 'wall_cap': {'quick': 400.0, 'thorough': 3000.0}}
 
 
@@ -68,9 +68,9 @@ CHECKS = {
                      'state-digest oracle on rejections, bounded liveness with the real driver',
                      0, 0, expected=['mutation_missing_parent', 'mutation_self_parent', 'mutation_ids_not_from_1',
                                      'ghost_range_reserved'],
-                     scenarios=[{'module': 'worlds.batch.adversarial', 'quick': 6000, 'thorough': 120000,
+                     scenarios=[{'module': 'worlds.batch.adversarial', 'quick': 6000, 'thorough': 48000,
                                  'wall_cap': {'quick': 400.0, 'thorough': 3000.0}},
-                                {'module': 'worlds.batch.adversarial_driver', 'quick': 150, 'thorough': 3000,
+                                {'module': 'worlds.batch.adversarial_driver', 'quick': 150, 'thorough': 1200,
                                  'seed_offset': 5_000_000,
                                  'wall_cap': {'quick': 400.0, 'thorough': 3000.0}}]),
     'C09': _fe_entry('C09', 'worlds.batch.submit',
@@ -79,7 +79,7 @@ CHECKS = {
                      'lost connections and ack-lost commits; after every commit and at the end: no duplicate batch / '
                      'update / job / group, contiguous ordered id ranges, counters equal recount, client ids == server ids.',
                      'real client + real front end over a lossy simulated network; exactly-once and id-agreement oracles',
-                     12000, 200000, expected=['co_updater_joined', 'submit_raised']),
+                     12000, 84000, expected=['co_updater_joined', 'submit_raised']),
     'C14': _fe_entry('C14', 'worlds.batch.access',
                      'Every route of the real front_end.routes table is classified from the property text and requested by '
                      'unauthenticated, garbage-token, inactive, deleted, non-member, member, owner, developer and auth-service '
@@ -88,7 +88,7 @@ CHECKS = {
                      'and the blob store unchanged with no committed transaction. Samples histories; not a proof.',
                      'route-table enumeration x caller matrix inside a running service history; response oracle on every '
                      'server-side answer, whole-database digest + commit count around each gated intruder request',
-                     6000, 100000, expected=['forbidden_refused', 'permitted_ok', 'cookie_auth', 'ui_login_redirect',
+                     6000, 42000, expected=['forbidden_refused', 'permitted_ok', 'cookie_auth', 'ui_login_redirect',
                                              'concurrent_intruder', 'membership_changed', 'target:open_update',
                                              'target:running', 'target:cancelled', 'target:complete', 'target:deleted']),
     'C01': _entry('C01', 'After every committed transaction of seeded service histories the scheduler counters '
@@ -124,7 +124,7 @@ CHECKS = {
                   'completion recount after every commit + reported-status oracle + group-tree agreement',
                   offset=500_000, expected=['status_reported_complete', 'status_reported_incomplete',
                                             'group_parent_checked'],
-                  extra_scenarios=[{'module': 'worlds.batch.cancelscope', 'quick': 1500, 'thorough': 40000,
+                  extra_scenarios=[{'module': 'worlds.batch.cancelscope', 'quick': 1500, 'thorough': 12000,
                                     'seed_offset': 550_000, 'params': {'props': ['C06']},
                                     'wall_cap': {'quick': 400.0, 'thorough': 3000.0}}]),
     'C07': _entry('C07', 'After a cancellation commits no cancellable job of the subtree starts, nothing can be added '
@@ -132,7 +132,7 @@ CHECKS = {
                          'under any combination of cancelled groups returns normally.',
                   'cancellation-scope monitor + procedure health', offset=600_000,
                   expected=['cancel_committed', 'cancel_child_then_ancestor', 'cancelled_then_submitted'],
-                  extra_scenarios=[{'module': 'worlds.batch.cancelscope', 'quick': 1500, 'thorough': 40000,
+                  extra_scenarios=[{'module': 'worlds.batch.cancelscope', 'quick': 1500, 'thorough': 12000,
                                     'seed_offset': 650_000, 'wall_cap': {'quick': 400.0, 'thorough': 3000.0}}]),
     'C10': _entry('C10', 'After every commit touching attempts or instances, free cores of each live instance equal '
                          'total minus cores of its un-ended attempts; inactive instances are entirely free.',
